@@ -5,7 +5,7 @@ neither reads out of range nor runs out of its fuel on certified state stacks.
 import TmVerif.Proofs.LRXSafe
 namespace TmVerif.LRX
 open TmVerif.LR TmVerif.CFG TmVerif.LRSound
-variable {g : Grammar} {x : XTables} {cert : Cert} {xc : XCert}
+variable {g : Grammar} {x : XTables} {cert : Cert} {xc : XCert} {i : Nat}
 
 /-- `reduceAll`'s simulation on the combined stack of states (top first); `reduceAllLoop` computes
 this for every way of splitting the stack into the copied part and the part pushed since -/
@@ -31,20 +31,20 @@ def simC (x : XTables) (a : Nat) (fin : Int) : Nat → List Nat → Option Bool
       | none => none
 
 /-- the potential of a chain of reductions under the lookahead `a` -/
-def phi (xc : XCert) (a : Nat) (sts : List Nat) : Nat :=
-  xc.weight * sts.length + rankOf xc a (sts.headD 0)
+def phi (xc : XCert) (i a : Nat) (sts : List Nat) : Nat :=
+  xc.weight * sts.length + rankOf xc i a (sts.headD 0)
 
 theorem reduceAll_progress (hc : CertFacts g x.t cert) (hx : XFacts g x cert xc)
-    {a : Nat} (ha : a < x.t.nTerms) (fin : Int) {s : Nat} {rest : List Nat} {syms : List Int}
-    {ss s2 : List Int} (h : StOk g x cert (s :: rest) syms)
+    {a : Nat} (ha : a < x.t.nTerms) (fin : Int) (hfi : fin = finOf x i) {s : Nat} {rest : List Nat}
+    {syms : List Int} {ss s2 : List Int} (h : StOk g x cert i (s :: rest) syms)
     (hcomb : s2 ++ ss = (s :: rest).map Int.ofNat) (hs2 : s2 ≠ []) :
     (∃ b, (∀ fuel, reduceAllLoop x a fin (fuel + 1) ss s2 s = some b) ∧
       (∀ fuel, simC x a fin (fuel + 1) (s :: rest) = some b) ∧
       (b = true → (s : Int) = fin ∨ ∃ q, actOf x.t noDeep s a = some (.shift q))) ∨
     (∃ (q p' : Nat) (rest' : List Nat) (syms' : List Int) (ss' s2' : List Int) (r : Int),
-      StOk g x cert (q :: p' :: rest') syms' ∧
+      StOk g x cert i (q :: p' :: rest') syms' ∧
       s2' ++ ss' = (q :: p' :: rest').map Int.ofNat ∧ s2' ≠ [] ∧
-      phi xc a (q :: p' :: rest') < phi xc a (s :: rest) ∧
+      phi xc i a (q :: p' :: rest') < phi xc i a (s :: rest) ∧
       (s : Int) ≠ fin ∧ actOf x.t noDeep s a = some (.reduce r) ∧
       (∀ fuel, reduceAllLoop x a fin (fuel + 1) ss s2 s = reduceAllLoop x a fin fuel ss' s2' q) ∧
       (∀ fuel, simC x a fin (fuel + 1) (s :: rest) = simC x a fin fuel (q :: p' :: rest'))) := by
@@ -69,14 +69,14 @@ theorem reduceAll_progress (hc : CertFacts g x.t cert) (hx : XFacts g x cert xc)
   | reduce r =>
     right
     obtain ⟨rule, p', rest', q, hr0, hrule, hlen, hsym, hdrop, hg, hnew, hrank⟩ :=
-      h.reduce hc hx.rk ha hact
+      h.reduce hc hx.rk (hx.closed hc) ha (by rw [← hfi]; exact hfin) hact
     have hcd : (s2 ++ ss).drop rule.rhs.length = ((p' : Int)) :: rest'.map Int.ofNat := by
       rw [hcomb, ← List.map_drop, hdrop]; rfl
     have hlen1 : rule.rhs.length < (s :: rest).length := by
       have := congrArg List.length hdrop
       simp only [List.length_drop, List.length_cons] at this ⊢
       omega
-    have hphi : phi xc a (q :: p' :: rest') < phi xc a (s :: rest) := by
+    have hphi : phi xc i a (q :: p' :: rest') < phi xc i a (s :: rest) := by
       have h1 := congrArg List.length hdrop
       simp only [List.length_drop, List.length_cons] at h1
       have h2 : (q :: p' :: rest').length + rule.rhs.length = (s :: rest).length + 1 := by
@@ -150,19 +150,19 @@ theorem reduceAll_progress (hc : CertFacts g x.t cert) (hx : XFacts g x cert xc)
 /-- with more fuel than the potential the simulated reductions return, the result does not
 depend on the surplus, and it is the result of the simulation on the combined stack -/
 theorem reduceAllLoop_total (hc : CertFacts g x.t cert) (hx : XFacts g x cert xc)
-    {a : Nat} (ha : a < x.t.nTerms) (fin : Int) :
+    {a : Nat} (ha : a < x.t.nTerms) (fin : Int) (hfi : fin = finOf x i) :
     ∀ (n : Nat) {s : Nat} {rest : List Nat} {syms : List Int} {ss s2 : List Int},
-      StOk g x cert (s :: rest) syms → s2 ++ ss = (s :: rest).map Int.ofNat → s2 ≠ [] →
-      phi xc a (s :: rest) < n →
+      StOk g x cert i (s :: rest) syms → s2 ++ ss = (s :: rest).map Int.ofNat → s2 ≠ [] →
+      phi xc i a (s :: rest) < n →
       ∃ b, (∀ extra, reduceAllLoop x a fin (n + extra) ss s2 s = some b) ∧
         (∀ extra, simC x a fin (n + extra) (s :: rest) = some b)
   | 0, _, _, _, _, _, _, _, _, hn => by omega
   | n + 1, s, rest, syms, ss, s2, h, hcomb, hs2, hn => by
-    rcases reduceAll_progress hc hx ha fin h hcomb hs2 with ⟨b, hb, hb', _⟩ |
+    rcases reduceAll_progress hc hx ha fin hfi h hcomb hs2 with ⟨b, hb, hb', _⟩ |
       ⟨q, p', rest', syms', ss', s2', r, h', hc', hs2', hphi, _, _, hstep, hstep'⟩
     · exact ⟨b, fun extra => by rw [show n + 1 + extra = (n + extra) + 1 by omega]; exact hb _,
         fun extra => by rw [show n + 1 + extra = (n + extra) + 1 by omega]; exact hb' _⟩
-    · obtain ⟨b, hb, hb'⟩ := reduceAllLoop_total hc hx ha fin n h' hc' hs2' (by omega)
+    · obtain ⟨b, hb, hb'⟩ := reduceAllLoop_total hc hx ha fin hfi n h' hc' hs2' (by omega)
       exact ⟨b, fun extra => by
           rw [show n + 1 + extra = (n + extra) + 1 by omega, hstep]; exact hb extra,
         fun extra => by
@@ -171,8 +171,8 @@ theorem reduceAllLoop_total (hc : CertFacts g x.t cert) (hx : XFacts g x cert xc
 /-- `reduceAll` on a certified stack: defined, its fuel is sufficient, and the result is the one
 of the simulation on the combined stack -/
 theorem reduceAll_total (hc : CertFacts g x.t cert) (hx : XFacts g x cert xc)
-    {a : Nat} (ha : a < x.t.nTerms) (fin : Int) {s : Nat} {rest : List Nat} {syms : List Int}
-    (h : StOk g x cert (s :: rest) syms) :
+    {a : Nat} (ha : a < x.t.nTerms) (fin : Int) (hfi : fin = finOf x i) {s : Nat} {rest : List Nat}
+    {syms : List Int} (h : StOk g x cert i (s :: rest) syms) :
     ∃ b, reduceAll x (rest.map Int.ofNat) s a fin = some b ∧
       (∀ extra, reduceAllLoop x a fin
         (4 * ((rest.map Int.ofNat).length + x.t.nStates + 4) + extra) (rest.map Int.ofNat) [(s : Int)] s
@@ -180,15 +180,15 @@ theorem reduceAll_total (hc : CertFacts g x.t cert) (hx : XFacts g x cert xc)
       (∀ extra, simC x a fin (4 * ((rest.map Int.ofNat).length + x.t.nStates + 4) + extra)
         (s :: rest) = some b) := by
   have hs : s < x.t.nStates := h.lt hc s (by simp)
-  have hr := hx.rankB a s ha hs
+  have hr := hx.rk.rankB i a s h.input_lt ha hs
   unfold rankBound at hr
   have hw := hx.weightLe
-  have hphi : phi xc a (s :: rest) < 4 * ((rest.map Int.ofNat).length + x.t.nStates + 4) := by
+  have hphi : phi xc i a (s :: rest) < 4 * ((rest.map Int.ofNat).length + x.t.nStates + 4) := by
     unfold phi
     simp only [List.length_cons, List.length_map, List.headD_cons]
     have : xc.weight * (rest.length + 1) ≤ 4 * (rest.length + 1) := Nat.mul_le_mul_right _ hw
     omega
-  obtain ⟨b, hb, hb'⟩ := reduceAllLoop_total hc hx ha fin
+  obtain ⟨b, hb, hb'⟩ := reduceAllLoop_total hc hx ha fin hfi
     (4 * ((rest.map Int.ofNat).length + x.t.nStates + 4)) h
     (ss := rest.map Int.ofNat) (s2 := [(s : Int)]) rfl (by simp) hphi
   refine ⟨b, ?_, hb, hb'⟩
